@@ -191,7 +191,7 @@ def run(tier, seed, focus=None):
     # the timeframe NAME -> length mapping, enumerated: every unit, every multiplier up to 1500 (three and four digit ones included)
     from datetime import timedelta as _td
 
-    from hexital.utils.timeframe import timeframe_to_timedelta
+    from hexital.utils.timeframe import timeframe_to_timedelta, validate_timeframe
 
     unit_kw = {"S": "seconds", "T": "minutes", "H": "hours", "D": "days"}
     for unit, kwname in unit_kw.items():
@@ -200,6 +200,10 @@ def run(tier, seed, focus=None):
             name = f"{unit}{k}"
             try:
                 got = timeframe_to_timedelta(name)
+                # what an Indicator / Hexital makes of the name: validate first (any re-spelling must keep the length)
+                via = timeframe_to_timedelta(validate_timeframe(name))
+                if via != got:
+                    got = f"{via} after validate_timeframe ({validate_timeframe(name)!r})"
             except Exception as e:  # noqa
                 got = f"raised {type(e).__name__}: {e}"
             want = _td(**{kwname: k})
